@@ -91,6 +91,11 @@ HANDWRITTEN = [
     # timeout, then close
     {"faults": {"0": {"2": ["sleep", 0.5]}}, "calls": [{"call": "reset_async"}, {"call": "reset_wait"}, {"call": "step_async"}, {"call": "step_wait", "to": "finite"}, {"call": "close"}]},
     {"faults": {"1": {"1": ["sleep", 0.5]}}, "calls": [{"call": "reset_async"}, {"call": "reset_wait", "to": "finite"}, {"call": "close", "to": "finite"}]},
+    # a sub-environment that is stuck for good (sleeps far beyond the watchdog): the wait reports the timeout, a forced close
+    # returns promptly and leaves no worker behind
+    {"faults": {"0": {"2": ["sleep", 40.0]}}, "calls": [{"call": "reset_async"}, {"call": "reset_wait"}, {"call": "step_async"}, {"call": "step_wait", "to": "finite"}, {"call": "close", "to": "terminate"}]},
+    {"faults": {"1": {"1": ["sleep", 40.0]}}, "calls": [{"call": "reset_async"}, {"call": "reset_wait", "to": "finite"}, {"call": "close", "to": "terminate"}]},
+    {"faults": {"1": {"2": ["sleep", 40.0]}}, "calls": [{"call": "reset_async"}, {"call": "reset_wait"}, {"call": "call_async"}, {"call": "call_wait", "to": "finite"}, {"call": "close", "to": "terminate"}]},
     # killed worker: mid-step, idle; then close
     {"faults": {"1": {"2": ["kill", ""]}}, "calls": [{"call": "reset_async"}, {"call": "reset_wait"}, {"call": "step_async"}, {"call": "step_wait"}, {"call": "close"}]},
     {"calls": [{"call": "reset_async"}, {"call": "reset_wait"}, {"call": "settle"}, {"call": "kill", "w": 0}, {"call": "step_async"}, {"call": "close"}]},
